@@ -14,6 +14,8 @@ from tiv.sem import trace, expand, same, same_bool, cx
 from tiv.srcmodel import AnalysisError
 
 RULES = {
+    "MEMO": "memo safety (shared, rules/common.py): a memoised function in this property's files (or called from them) is a function of its "
+            "arguments only (no terminal/ambient/receiver state outside the key) and no caller mutates its result in place",
     "R1": "operand sign at draw time: every raw cursor template applied in the animation drivers has an operand proven >= 1 (or is guarded); the new "
           "API only uses the guarded helpers cursor_up/down/forward",
     "R2": "cursor-row balance: with the cursor row tracked as a polynomial over the symbols the code names (height, pad_top, pad_bottom, lines): "
@@ -357,6 +359,20 @@ def run(ck, m):
         ck.ob("R5", a[0][2], (a[0][0], b[0][0]) in comp and a[0][1] == b[0][1] and ret_true,
               f"_clear_frame clears explicitly for version {a[0][0]} {a[0][1]} while _display_animated uses blend=False for version {b[0][0]} {b[0][1]}: the predicates must be complementary, "
               "otherwise some kitty version gets neither and frames pile up on the same cells", stmt="kitty: clear-frame / blend=False predicates complementary")
+
+    # every frame is drawn over the same cells: the iterator's cache must hold unpadded frames (shared with C08/C09)
+    from rules.c09 import rule_padding_after_cache
+    rule_padding_after_cache(ck, m, "R2")
+    # old API: nothing is written before _renderer() has validated the size
+    od2 = m.get(CM, "BaseImage.draw")
+    rcall4 = next((c for c in body_walk(od2) if isinstance(c, ast.Call) and norm(c.func) == "self._renderer"), None)
+    if rcall4 is not None:
+        early = [c for c in body_walk(od2) if isinstance(c, ast.Call) and ((call_name(c) or "") in ("print", "sys.stdout.write", "_stdout_write", "sys.stdout.flush") or (call_name(c) or "").endswith("stdout.write")) and c.lineno < rcall4.lineno and getattr(enclosing_stmt(c), "_q", "") == "BaseImage.draw"]
+        ck.ob("R3", enclosing_stmt(early[0]) if early else od2, not early, f"BaseImage.draw writes to the terminal (`{short(early[0], 50) if early else ''}`) before self._renderer() has validated the size: a rejected draw must leave the terminal untouched",
+              stmt="BaseImage.draw: no output before size validation")
+
+    from rules.common import rule_memo_safety
+    rule_memo_safety(ck, m, "MEMO", "C06")
 
 
 def _anc(n):
